@@ -51,9 +51,13 @@ SigCase == Cur.sigFired /\ Cur.srvAtSignal = "running"
 -----------------------------------------------------------------------------
 (* C07: graceful shutdown finishes in-flight requests and stops accepting *)
 
-\* no accept result after the instant the signal future returned Ready (event order, not wall time)
+\* no accept result after the instant the signal became ready (event order, not wall time).  The signal
+\* becomes ready either between two polls of the serving future (the schedule fires it) or INSIDE a poll,
+\* between two accepts of a burst (the make-service fires it on its k-th call: "serve k connections, then
+\* stop"): the connection whose make-service call fired it was accepted before that instant and may be
+\* served or not; nothing may be accepted after it.
 C07_NoAcceptAfterSignal ==
-  IsObs /\ Cur.sigSeq # 0 => \A j \in 1..Len(Cur.acceptSeqs) : Cur.acceptSeqs[j] < Cur.sigSeq
+  IsObs /\ Cur.sigFireSeq # 0 => \A j \in 1..Len(Cur.acceptSeqs) : Cur.acceptSeqs[j] < Cur.sigFireSeq
 \* ... and nothing new is served: a fresh client after the signal gets no response, no handler runs for
 \* it, and no handler starts on a connection that had no driver when the signal was seen
 C07_NoServiceAfterSignal ==
@@ -103,6 +107,11 @@ C09_ProbeServed ==
 C09_Isolation ==
   (IsObs /\ HasPrev /\ Cur.kind = "step" /\ Cur.det /\ Acts \cap Global = {} /\ Cardinality(BConns) = 1) =>
      \A j \in 1..Len(Cur.conns) : Cur.conns[j].c \notin BConns => Cur.conns[j] = Prev.conns[j]
+\* a failure confined to one connection does not keep the runtime from going idle (a connection task
+\* that spins starves or slows everybody on the same executor; recorded by the harness's real-time
+\* watchdog around its paused-clock settle), and once every client is gone every driver task has ended
+C09_Quiescent  == IsObs => ~Cur.stalled
+C09_DriversEnd == (IsObs /\ Cur.kind = "final") => Cur.spawned = Cur.finished
 \* requests of well-behaved connections: whatever was handed to a handler completes, and while the
 \* server is up everything a well-behaved client sent completely is served
 C09_OthersServed ==
@@ -114,6 +123,7 @@ C09_OthersServed ==
 AllC07 == /\ C07_NoAcceptAfterSignal /\ C07_NoServiceAfterSignal /\ C07_ReturnsOk /\ C07_InflightCompletes
           /\ C07_ToldAtMostOnce /\ C07_OpenToldAndClosed /\ C07_DriversEnd
 AllC09 == /\ C09_SrvStable /\ C09_EndsOnlyOnAllowed /\ C09_ProbeServed /\ C09_Isolation /\ C09_OthersServed
+          /\ C09_Quiescent /\ C09_DriversEnd
 Holds  == IF Which = "C07" THEN AllC07 ELSE AllC09
 
 \* every schedule is its own initial state; a schedule is followed up to and including its first observation
